@@ -193,7 +193,23 @@ pub fn sentinel_frame(script_filter: &Option<Vec<u32>>, icao: u32, rng: &mut Rng
     Some(gen::frame(rng, &mut ac, kind, true))
 }
 
-fn gen(rng: &mut Rng, _idx: u64, tier: Tier) -> Case {
+fn gen(rng: &mut Rng, idx: u64, tier: Tier) -> Case {
+    if idx % 12_000 == 11 {
+        // one very long single-format stream: per-format frame counts of a few hundred thousand (products and
+        // percentages of such counts leave 32 bits); the display is refreshed at the end
+        let addrs = gen::addresses(rng, 2);
+        let mut acs: Vec<gen::Ac> = addrs.iter().map(|&a| gen::aircraft(rng, a)).collect();
+        let kind = *rng.pick(&[Kind::Df11, Kind::AirPos, Kind::Df4]);
+        let total = 215_000 + rng.range(0, 120_000) as usize;
+        let mut ops = vec![];
+        let mut left = total;
+        while left > 0 { let k = left.min(4096); ops.push(Op::Data { dt_us: 0, bytes: Bytes(gen::blob_of(rng, &mut acs, k, kind)), tag: "huge-count".into() }); left -= k; }
+        for _ in 0..3 { ops.push(Op::Data { dt_us: 2_000_000, bytes: Bytes(gen::blob_of(rng, &mut acs, 1, kind)), tag: "huge-count-tail".into() }); }
+        let mut args = vec!["--delete-after=600".to_string(), "--count-df".into(), "--update=0".into()];
+        if rng.chance(0.5) { args.push("--use-update-method".into()); }
+        let script = Script::file(args, ops);
+        return Case { property: "C01".into(), mode: "huge-count".into(), script, args_b: None, log_level_b: None, meta: serde_json::Value::Null };
+    }
     let n_ac = rng.range(1, 3) as usize;
     let addrs = gen::addresses(rng, n_ac + 1);
     let sentinel_addr = addrs[n_ac];
